@@ -294,6 +294,46 @@ let run_stream (line : string) : string =
        | Err (e, _) -> Printf.sprintf "ERR %s" (err_string e))
   | _ -> failwith "bad stream case"
 
+(* case: same as exec.  Output: the state after t cycles for every t (obtained by running the model
+   under the cycle limit t - 1), in the format of the harness' `iter` family *)
+let run_states (line : string) : string =
+  match String.split_on_char '|' line with
+  | maxs :: stacks :: advs :: progs :: _ ->
+      let t = { v = Array.of_list (split_ws progs); i = 0 } in
+      let prog, hashes = parse_program t in
+      let stack = List.map (parse_val hashes) (split_ws stacks) in
+      let adv = List.map (parse_val hashes) (split_ws advs) in
+      let big = Big_int_Z.big_int_of_int 1000000 in
+      let fuel = nat_of_int 20000 in
+      let mem_ctx (s : state) =
+        let seen = Hashtbl.create 16 in
+        let acc = ref [] in
+        List.iter (fun ((c, a), w) ->
+          if Big_int_Z.eq_big_int c s.ctx then begin
+            let k = s_of_z a in
+            if not (Hashtbl.mem seen k) then begin
+              Hashtbl.add seen k ();
+              if not (is_zero_word w) then acc := (a, w) :: !acc
+            end end) s.mem;
+        let sorted = List.sort (fun (a1, _) (a2, _) -> Big_int_Z.compare_big_int a1 a2) !acc in
+        String.concat ";" (List.map (fun (a, w) -> s_of_z a ^ "=" ^ String.concat "," (List.map s_of_z w)) sorted) in
+      let st_str (s : state) =
+        Printf.sprintf "%s:%s:%s:%s:%s:%s" (s_of_z s.clk) (s_of_z s.ctx) (s_of_z s.fmp)
+          (String.concat "," (List.map s_of_z s.stk)) (mem_ctx s)
+          (String.concat "," (List.map s_of_z (List.concat (List.map fst s.saved)))) in
+      (match exec_program fuel big prog stack adv with
+       | Ok fin ->
+           let n = Big_int_Z.int_of_big_int fin.clk in
+           let states = ref [st_str (init_state stack adv)] in
+           for k = 1 to n do
+             (match exec_program fuel (Big_int_Z.big_int_of_int (k - 1)) prog stack adv with
+              | Err (CycleLimit _, s) -> states := st_str s :: !states
+              | _ -> states := "?" :: !states)
+           done;
+           Printf.sprintf "OK n=%d | %s" (n + 1) (String.concat " | " (List.rev !states))
+       | Err (e, _) -> Printf.sprintf "ERR %s" (err_string e))
+  | _ -> failwith "bad iter case"
+
 let () =
   let family = Sys.argv.(1) in
   let ic = open_in Sys.argv.(2) in
@@ -309,6 +349,7 @@ let () =
               | "spec" -> run_spec_case line
               | "lower" -> run_lower line
               | "stream" -> run_stream line
+              | "iter" -> run_states line
               | "astexec" -> run_astexec line
               | _ -> failwith "unknown family")
            with Failure m -> "DRIVER-FAIL " ^ m
